@@ -153,7 +153,7 @@ class Spec(PropSpec):
             "every packet (flags, seq, ack, window, payload), every op result, netstat, table counts. Non-trivial = a write "
             "blocked or was cut at the cap, a segment of exactly MSS bytes left, or a UDP send was rejected; distinct = distinct (cfg, script)")
     assumptions = [
-        "sequence numbers are unbounded naturals in the model (u32 wrap-around is not modelled)",
+        "sequence numbers: the theorems are stated on unbounded naturals (side condition, not proved: every live sequence distance - in flight, window, send/receive buffer - stays below 2^31, so that the code's wrapping_sub/wrapping_add comparisons agree with them; caps and windows are at most 65535/70000); the model's wire encoding is mod 2^32 and the deterministic `wrap` family of C06 (ISN = 2^32-k on both hosts via verif hook 71a27bd, k in {1,100,1460,5000}, both roles, both directions, with and without loss) checks model/implementation correspondence and the byte-stream oracle across the wrap",
         "`kreach` quantifies over every syscall sequence with arbitrary arguments and every inbound packet sequence (adversarial network), for every KernelConfig",
         "inflight_le_wnd is stated for the moment right after an emission (a later ACK may shrink the window; an ACK never increases the amount in flight)",
         "the first window a client sees is DEFAULT_WINDOW (65535) from the SYN-ACK regardless of the server's recv_buf_cap; the receiver truncates at its cap",
